@@ -479,6 +479,77 @@ func TestC03Engine(t *testing.T) {
 	})
 }
 
+// TestC03OutOfRange: the engine's own validation of what a driver hands back. A reply attributed to a TTL
+// outside the probed range (below the first TTL, 0, above the last TTL) must never bend the shape of a
+// successful run: either the run fails, or its hop list is still non-empty, consecutive from the first TTL
+// and ends at the only destination entry. No real driver returns such a TTL; the engines do not rely on that.
+func TestC03OutOfRange(t *testing.T) {
+	rec := NewRecorder("C03", "C03OutOfRange", "rapid: both engines with a scripted driver that, among in-range deliveries, returns 1..3 replies attributed to a TTL outside the probed range (0, first-2, first-1, last+1, 255; destination or not); oracle: no panic, and the run fails or its list has the C03 shape (non-empty, consecutive TTLs from the first, at most one destination entry and only at the end, ToHops succeeds); non-trivial = first > 1 and an out-of-range destination reply below the first TTL")
+	RunProp(t, rec, func(rt *rapid.T) *EngineCase {
+		c := genEngineCase(rt, "")
+		if len(c.Deliveries) > 12 {
+			c.Deliveries = c.Deliveries[:12]
+		}
+		n := rapid.IntRange(1, 3).Draw(rt, "n_out")
+		for i := 0; i < n; i++ {
+			d := Delivery{Serial: 1000 + i}
+			d.TTL = oneOf(rt, fmt.Sprintf("o%d_ttl", i), 0, c.MinTTL-2, c.MinTTL-1, c.MinTTL-1, c.MaxTTL+1, 255)
+			if d.TTL < 0 {
+				d.TTL = 0
+			}
+			if d.TTL > 255 {
+				d.TTL = 255
+			}
+			d.Dest = rapid.Bool().Draw(rt, fmt.Sprintf("o%d_dest", i))
+			d.AtNs = rapid.Int64Range(0, c.TimeoutNs/2).Draw(rt, fmt.Sprintf("o%d_at", i))
+			c.Deliveries = append(c.Deliveries, d)
+		}
+		return c
+	}, func(t *testing.T, c *EngineCase, rec *Recorder) []Diff {
+		o := runEngine(t, c)
+		nt := false
+		for _, d := range c.Deliveries {
+			if d.Serial >= 1000 && d.Dest && d.TTL < c.MinTTL && c.MinTTL > 1 {
+				nt = true
+			}
+		}
+		label := "outcome:success"
+		if o.err != nil {
+			label = "outcome:rejected"
+		}
+		rec.Case(scenarioKey(c), nt, c, "engine:"+c.Engine, label)
+		if o.panicked != "" {
+			return []Diff{{"C03", "panic", "a reply attributed to a TTL outside the probed range crashed the engine: " + o.panicked}}
+		}
+		if o.err != nil {
+			return nil
+		}
+		var ds []Diff
+		res := o.res
+		if len(res) == 0 {
+			ds = append(ds, Diff{"C03", "empty", "successful run with an empty hop list"})
+		}
+		if len(res) > c.MaxTTL-c.MinTTL+1 {
+			ds = append(ds, Diff{"C03", "length", fmt.Sprintf("%d entries for the range %d..%d", len(res), c.MinTTL, c.MaxTTL)})
+		}
+		for i, r := range res {
+			if r == nil {
+				continue
+			}
+			if int(r.TTL) != c.MinTTL+i {
+				ds = append(ds, Diff{"C03", "ttl-sequence", fmt.Sprintf("entry %d has TTL %d, want %d", i, r.TTL, c.MinTTL+i)})
+			}
+			if r.IsDest && i != len(res)-1 {
+				ds = append(ds, Diff{"C03", "dest-not-last", fmt.Sprintf("entry %d (TTL %d) is destination but not last of %d", i, r.TTL, len(res))})
+			}
+		}
+		if _, err := common.ToHops(common.TracerouteParams{MinTTL: uint8(c.MinTTL), MaxTTL: uint8(c.MaxTTL)}, res); err != nil {
+			ds = append(ds, Diff{"C03", "tohops", "ToHops failed on the engine's own output: " + err.Error()})
+		}
+		return ds
+	})
+}
+
 // TestC03AllPairs runs every (first,last) pair with a small sampled answer set (thorough) or a stride (quick).
 func TestC03AllPairs(t *testing.T) {
 	stride := 7
